@@ -813,6 +813,10 @@ def wsum_fp_replay(n: int = 3, w0: float = 0.0, v0: float = 0.0, w1: float = 0.0
         sim = lambda a, b: a == b or (math.isnan(a) and math.isnan(b))
         if "x" in f and "y" in f:
             check(not sim(f["x"], f["y"]) or sim(f["x"] + f["p"], f["y"] + f["p"]), f"Z-congruence fails on {f}")
+        elif "bstep" in f:
+            b = [0.0, 1e300, 1e300 + 1e300, 1e300 + 1e300 + 1e300]
+            k = int(f["bstep"])
+            check(not (abs(f["x"]) <= b[k] and abs(f["p"]) <= 1e300) or abs(f["x"] + f["p"]) <= b[k + 1], f"lemma B-step fails on {f}")
         elif "x" in f:
             check(f["p"] != 0.0 or sim(f["x"] + f["p"], f["x"]), f"Z-absorb fails on {f}")
         else:
@@ -853,7 +857,25 @@ def wsum_fp_smt(tier: str = "quick"):
     from primaite.game.agent.rewards import RewardFunction
     from vlib.py2smt import FP64, Obligations, Rec, Translator, _Intrinsic, _val
 
-    ob = Obligations(timeout_ms=240000)
+    ob = Obligations(timeout_ms=150000)
+    _prove = ob.prove
+
+    def prove_retry(name, assumptions, claim, wit=None):
+        """z3's FP procedure is sensitive to term numbering: an 'unknown' is retried with other seeds (sound: only an
+        unsat answer counts as proved)."""
+        rec = None
+        for seed in (0, 7, 23):
+            z3.set_param("smt.random_seed", seed)
+            z3.set_param("sat.random_seed", seed)
+            rec = _prove(name, assumptions, claim, wit)
+            if rec["status"] != "INCONCLUSIVE":
+                break
+            ob.results.pop()
+        else:
+            ob.results.append(rec)
+        return rec
+
+    ob.prove = prove_retry
     rne = z3.RNE()
     fin = lambda x: z3.Not(z3.Or(z3.fpIsNaN(x), z3.fpIsInf(x)))
     translated = []
@@ -895,12 +917,13 @@ def wsum_fp_smt(tier: str = "quick"):
             for pterm in P:
                 accp = z3.fpAdd(rne, accp, pterm)
             lim = z3.FPVal(1e300, FP64)
-            ob.prove(
-                f"n={n}: lemma B: |p_i| <= 1e300 => ((0.0 + p0) + p1 ...) is finite",
-                [z3.fpLEQ(z3.fpAbs(x), lim) for x in P],
-                fin(accp),
-                {f"p{i}": P[i] for i in range(n)},
-            )
+            if n <= 2:  # direct; for n = 3 the chain of single-addition lemmas B-step below
+                ob.prove(
+                    f"n={n}: lemma B: |p_i| <= 1e300 => ((0.0 + p0) + p1 ...) is finite",
+                    [z3.fpLEQ(z3.fpAbs(x), lim) for x in P],
+                    fin(accp),
+                    {f"p{i}": P[i] for i in range(n)},
+                )
             # a component with weight 0 contributes nothing: its product is a zero (lemma Z0 below) and a zero term
             # does not change the same-order sum (lemma Z_n,k); composed with the fold obligation above
             for k in range(n if n <= 2 else 0):  # direct proof for n <= 2; any n by lemmas Z-absorb + Z-congruence
@@ -928,13 +951,33 @@ def wsum_fp_smt(tier: str = "quick"):
             sim(z3.fpAdd(rne, X, Pz), X),
             {"x": X, "p": Pz},
         )
+        # Z-congruence: numerically equal running sums stay equal after adding the same term. Split in two: (a) two
+        # numerically equal doubles are identical or both zeros (no arithmetic), (b) the addition lemma for two zeros;
+        # for identical operands congruence is reflexivity. With Z0 and Z-absorb, by induction over the fold, a
+        # zero-weight component never changes the reward, for any number of components.
         ob.prove(
-            "lemma Z-congruence: numerically equal running sums stay equal after adding the same term "
-            "(with Z0 and Z-absorb: by induction over the fold a zero-weight component never changes the reward, any n)",
+            "lemma Z-congruence (a): x ~ y => x and y are the same double or both are zeros",
             [sim(X, Y)],
+            z3.Or(X == Y, z3.And(z3.fpIsZero(X), z3.fpIsZero(Y))),
+            {"x": X, "y": Y, "p": Pz},
+        )
+        ob.prove(
+            "lemma Z-congruence (b): x, y zeros => fl(x+p) ~ fl(y+p)",
+            [z3.fpIsZero(X), z3.fpIsZero(Y)],
             sim(z3.fpAdd(rne, X, Pz), z3.fpAdd(rne, Y, Pz)),
             {"x": X, "y": Y, "p": Pz},
         )
+        bound = 0.0
+        for kstep in range(3):
+            nxt = bound + 1e300
+            ob.prove(
+                f"lemma B-step {kstep}: |x| <= {bound!r} and |p| <= 1e300 => |fl(x+p)| <= {nxt!r} (finite); chained from 0.0 "
+                f"this bounds the running sum after {kstep + 1} term(s)",
+                [z3.fpLEQ(z3.fpAbs(X), z3.FPVal(bound, FP64)), z3.fpLEQ(z3.fpAbs(Pz), z3.FPVal(1e300, FP64))],
+                z3.fpLEQ(z3.fpAbs(z3.fpAdd(rne, X, Pz)), z3.FPVal(nxt, FP64)),
+                {"x": X, "p": Pz, "bstep": z3.IntVal(kstep)},
+            )
+            bound = nxt
         big = z3.FPVal(1e150, FP64)
         ob.prove(
             "lemma A: |w|,|v| <= 1e150 => |fl(w*v)| <= 1e300",
@@ -991,7 +1034,7 @@ def wsum_fp_smt(tier: str = "quick"):
 HARNESSES = {
     "share_graph": {
         "fn": share_graph,
-        "quick": [{"fixed": {"n": 3, "loops": True, "as_set": s, "rev": r}, "timeout": 200} for s in (False, True) for r in (False, True)]
+        "quick": [{"fixed": {"n": 3, "loops": True, "as_set": s, "rev": r}, "timeout": 200} for s, r in ((False, False), (False, True), (True, False))]
         + [{"fixed": {"n": 4, "loops": False, "as_set": True, "rev": False, "perm": p}, "timeout": 200} for p in (0, 23)],
         "thorough": [{"fixed": {"n": 4, "loops": False, "as_set": s, "perm": p}, "timeout": 1200} for s in (False, True) for p in range(24)]
         + [{"fixed": {"n": 4, "loops": True, "as_set": True, "perm": p, "rev": False, "s0": a, "s1": b}, "timeout": 1200} for p in (0, 9, 23) for a in (False, True) for b in (False, True)],
@@ -1052,5 +1095,7 @@ HARNESSES["wsum_fp_smt"] = {
     "quick": [{"fixed": {}, "timeout": 600}],
     "thorough": [{"fixed": {}, "timeout": 1800}],
     "cover": ["fp"],
-    "bounds": "n <= 3 components, all finite IEEE doubles as weights and values: result equal to the left-to-right fold from 0.0 (same rounding at every step); zero-weight components contribute nothing (directly for n <= 2, by the single-step lemmas Z0/Z-absorb/Z-congruence for any n); result finite when |weights|,|values| <= 1e150",
+    "bounds": "n <= 3 components, all finite IEEE doubles as weights and values: result equals the left-to-right fold from 0.0 with one rounding per operation; "
+    "zero-weight components contribute nothing (directly for n <= 2; lemmas Z0/Z-absorb/Z-congruence give it for any n by induction); "
+    "|weights|,|values| <= 1e150 => result finite (lemma A on one product + lemmas B / B-step on the additions)",
 }
